@@ -2161,6 +2161,64 @@ fn c12_torn_tail_behind_compression_header(dir: PathBuf) -> ScenFut<'static> {
     })
 }
 
+/// A leaf between a tiny separator and large ones is drained: the borrow from the left sibling
+/// is declined (the new separator would not fit into the parent).
+fn c18_leaf_drained_behind_declined_redistribution(dir: PathBuf) -> ScenFut<'static> {
+    Box::pin(async move {
+        use surrealkv::bplustree::tree::new_disk_tree;
+        use surrealkv::{BytewiseComparator, LSMIterator};
+        std::fs::create_dir_all(&dir).map_err(|e| e.to_string())?;
+        let big = |prefix: u8, i: u8| -> Vec<u8> {
+            let mut k = vec![prefix; 980];
+            k[1] = b'0' + i;
+            k
+        };
+        let mut tree = new_disk_tree(dir.join("t.bpt"), std::sync::Arc::new(BytewiseComparator {})).map_err(|e| e.to_string())?;
+        let mut model = std::collections::BTreeMap::new();
+        let smalls: Vec<Vec<u8>> = (0..18).map(|i| format!("b{:02}", i).into_bytes()).collect();
+        for k in &smalls {
+            tree.insert(k, vec![b'v'; 101]).map_err(|e| e.to_string())?;
+            model.insert(k.clone(), vec![b'v'; 101]);
+        }
+        for i in [1u8, 2, 0] {
+            tree.insert(big(b'a', i), vec![i; 8]).map_err(|e| e.to_string())?;
+            model.insert(big(b'a', i), vec![i; 8]);
+        }
+        for i in 0..9u8 {
+            tree.insert(big(b'c', i), vec![i; 8]).map_err(|e| e.to_string())?;
+            model.insert(big(b'c', i), vec![i; 8]);
+        }
+        for k in &smalls {
+            tree.delete(k).map_err(|e| e.to_string())?;
+            model.remove(k);
+        }
+        let what = "18 small entries b00..b17, large (980-byte) keys a0..a2 and c0..c8 around them (the leaf of the b entries ends up between a 3-byte separator and 980-byte ones), then every b entry deleted";
+        for (k, v) in &model {
+            if tree.get(k).map_err(|e| e.to_string())?.as_deref() != Some(v.as_slice()) {
+                return Err(format!("{what}: get of a remaining key fails"));
+            }
+        }
+        let mut it = tree.internal_iterator();
+        let (mut fwd, mut ok) = (0, it.seek_first().map_err(|e| e.to_string())?);
+        while ok {
+            fwd += 1;
+            ok = it.next().map_err(|e| e.to_string())?;
+        }
+        let mut it = tree.internal_iterator();
+        let (mut bwd, mut ok) = (0, it.seek_last().map_err(|e| e.to_string())?);
+        while ok {
+            bwd += 1;
+            ok = it.prev().map_err(|e| e.to_string())?;
+        }
+        drop(it);
+        let census = tree.verif_census().map_err(|e| e.to_string());
+        if fwd != model.len() || bwd != model.len() {
+            return Err(format!("{what}: {} entries remain (point lookups find them all), a forward cursor walk visits {fwd}, a backward walk {bwd} - a leaf without keys is left in the leaf chain and the cursor stops at it", model.len()));
+        }
+        census.map(|_| ()).map_err(|e| format!("{what}: census fails: {e}"))
+    })
+}
+
 fn c18_separator_overflow(dir: PathBuf) -> ScenFut<'static> {
     Box::pin(async move {
         use surrealkv::bplustree::tree::new_disk_tree;
@@ -3201,6 +3259,12 @@ pub fn all() -> Vec<Scenario> {
             property: "C19",
             title: "second open of a directory held by a live store",
             run: c19_refused_open_truncates_lock,
+        },
+        Scenario {
+            id: "C18-leaf-drained-behind-declined-redistribution",
+            property: "C18",
+            title: "a leaf whose rebalancing is declined (separator would not fit) is drained by deletes, then cursor walks",
+            run: c18_leaf_drained_behind_declined_redistribution,
         },
         Scenario {
             id: "C18-separator-overflow-on-leaf-redistribution",
